@@ -7,6 +7,7 @@ import (
 	"strconv"
 	"strings"
 	"unicode"
+	"unicode/utf8"
 
 	"github.com/sboehler/knut/lib/syntax/directives"
 	"github.com/sboehler/knut/lib/syntax/parser"
@@ -25,7 +26,7 @@ func init() {
 // ------------------------------------------------------------------ observers
 
 // input: the text as lowercase hex.  Output: the rendered tree "(F ...)", the rendered error
-// chain "ERR (code s e)...", or "PANIC:<msg>".
+// chain "ERR (code s e @line:col)..." (line:col = Range.Location() of the error), or "PANIC:<msg>".
 func obsC07Parse(in string) (res string) {
 	defer func() {
 		if r := recover(); r != nil {
@@ -58,13 +59,14 @@ func c07RenderErr(err error) string {
 	for err != nil {
 		e, ok := err.(directives.Error)
 		if !ok {
-			sb.WriteString(" (other 0 0)")
+			sb.WriteString(" (other 0 0 @1:1)")
 			break
 		}
-		fmt.Fprintf(&sb, " (%s %d %d)", c07Code(e.Message), e.Start, e.End)
+		// the RENDERED position: line:col of Range.Location(), what Error() prints after the path
+		loc := e.Range.Location()
+		fmt.Fprintf(&sb, " (%s %d %d @%d:%d)", c07Code(e.Message), e.Start, e.End, loc.Line, loc.Col)
 		// exercise the rendering code of the error; a panic here is an observation
 		_ = e.Error()
-		loc := e.Range.Location()
 		_ = e.Range.Context(1)
 		_ = e.Range.Extract()
 		if loc.Line < 1 || loc.Col < 1 {
@@ -1139,14 +1141,111 @@ func c07TrickyCase(r *rng, mult int) []byte {
 	}
 }
 
+// c07AfterMultibyte: a syntax error AFTER multi-byte characters on the same line, so that the
+// column Range.Location() renders (runes since the last newline) differs from the byte distance
+// to the start of the line; half of the time within the last runes of the line, where a byte
+// distance would lie outside the line.
+func c07AfterMultibyte(r *rng, mult int) []byte {
+	g := newC07g(r)
+	g.sloppy = false
+	b := g.journal(mult)
+	type span struct{ s, e, first int } // line [s,e), end of its first multi-byte character
+	lines := func() []span {
+		var out []span
+		for s := 0; s <= len(b); {
+			e := bytes.IndexByte(b[s:], '\n')
+			if e < 0 {
+				e = len(b)
+			} else {
+				e += s
+			}
+			l := b[s:e]
+			comment := len(l) > 0 && (l[0] == '*' || l[0] == '#' || (len(l) > 1 && l[0] == '/' && l[1] == '/'))
+			if !comment {
+				for i := 0; i < len(l); {
+					c, w := utf8.DecodeRune(l[i:])
+					if w > 1 && c != utf8.RuneError {
+						out = append(out, span{s, e, s + i + w})
+						break
+					}
+					i += w
+				}
+			}
+			s = e + 1
+		}
+		return out
+	}
+	cand := lines()
+	if len(cand) == 0 {
+		// no such line: put a letter of two to four bytes behind an ASCII letter outside comments
+		var at []int
+		for s := 0; s < len(b); {
+			e := bytes.IndexByte(b[s:], '\n')
+			if e < 0 {
+				e = len(b)
+			} else {
+				e += s
+			}
+			l := b[s:e]
+			if !(len(l) > 0 && (l[0] == '*' || l[0] == '#' || l[0] == '/')) {
+				for i, c := range l {
+					if (c >= 'a' && c <= 'z') || (c >= 'A' && c <= 'Z') {
+						at = append(at, s+i+1)
+					}
+				}
+			}
+			s = e + 1
+		}
+		if len(at) == 0 {
+			return []byte("2020-01-01 open Zürich:Café !\n")
+		}
+		b = c07Insert(b, pick(r, at), []byte(pick(r, []string{"ü", "é", "ß", "Ω", "漢", "𝔘", "ｚ"})))
+		cand = lines()
+		if len(cand) == 0 {
+			return b
+		}
+	}
+	l := pick(r, cand)
+	// rune starts behind the first multi-byte character, and the end of the line
+	var pos []int
+	for i := l.first; i < l.e; {
+		pos = append(pos, i)
+		_, w := utf8.DecodeRune(b[i:l.e])
+		i += w
+	}
+	pos = append(pos, l.e)
+	var p int
+	if r.chance(50) {
+		k := len(pos) - 1 - r.intn(3)
+		if k < 0 {
+			k = 0
+		}
+		p = pos[k]
+	} else {
+		p = pick(r, pos)
+	}
+	switch k := r.intn(100); {
+	case k < 60: // a stray token
+		return c07Insert(b, p, []byte(pick(r, []string{"!", "€", "\"", " ;", "\t§", "😀", " x", "%", ":", "..", "\u00a0", "\r"})))
+	case k < 75 && p < l.e: // drop the rest of the line
+		return c07Delete(b, p, l.e)
+	case k < 85: // cut the text here
+		return append([]byte(nil), b[:p]...)
+	default: // an invalid encoding: the parser stops at the byte
+		return c07Insert(b, p, []byte(pick(r, c07BadUTF8)))
+	}
+}
+
 func c07Text(r *rng, mult int) []byte {
 	switch k := r.intn(100); {
 	case k < 45:
 		return newC07g(r).journal(mult)
-	case k < 75:
+	case k < 68:
 		g := newC07g(r)
 		g.sloppy = false
 		return c07Mutate(r, g.journal(mult))
+	case k < 75:
+		return c07AfterMultibyte(r, mult)
 	case k < 83:
 		return c07Raw(r)
 	case k < 90:
